@@ -6,6 +6,7 @@ use std::io::{BufRead, Write};
 
 mod common;
 mod sketch_mode;
+mod sync_mode;
 mod unsync_mode;
 
 pub trait Runner {
@@ -44,6 +45,7 @@ fn process(input: &mut dyn BufRead, out: &mut dyn Write) {
                 let cfg = parse_cfg(&toks[1..]);
                 runner = Some(match cfg.get("kind").copied() {
                     Some("sketch") => Box::new(sketch_mode::SketchRunner::default()),
+                    Some("sync") => Box::new(sync_mode::SyncRunner::new(&cfg)),
                     Some("unsync") => Box::new(unsync_mode::UnsyncRunner::new(&cfg)),
                     k => panic!("unknown kind {:?}", k),
                 });
